@@ -203,6 +203,7 @@ func cmdDump(args []string) int {
 	fn := fs.String("func", "", "function key")
 	smt := fs.Bool("smt", false, "print the SMT scripts")
 	timeout := fs.Int("timeout", 10, "")
+	keep := fs.String("keep", "", "directory to write complete query files to (debugging)")
 	fs.Parse(args)
 	specs, err := loadSpecs(filepath.Join(*verif, "spec"), *repo)
 	if err != nil {
@@ -252,6 +253,12 @@ func cmdDump(args []string) int {
 			}
 			if *smt {
 				fmt.Println(q.Script)
+			}
+			if *keep != "" && q.Result != q.Expect {
+				os.MkdirAll(*keep, 0o755)
+				fn := filepath.Join(*keep, fmt.Sprintf("%s.p%d.smt2", sanitize(o.Name), q.PathID))
+				os.WriteFile(fn, []byte(header(specs, x)+q.Script+"(check-sat)\n"), 0o644)
+				fmt.Println("    kept:", fn)
 			}
 		}
 	}
